@@ -67,7 +67,16 @@ func solveAll(results []*vc.FuncResult, s *vc.Solver, workers int) []*oblResult 
 		go func() {
 			defer wg.Done()
 			for j := range ch {
-				j.or.Answers[j.qi] = s.Solve(j.res.Query(j.or.Obl.Queries[j.qi], false))
+				q := j.or.Obl.Queries[j.qi]
+				var a vc.Answer
+				if q.Alt != "" {
+					q2 := q
+					q2.Goal = q.Alt
+					a = s.SolveEither(j.res.Query(q, false), j.res.Query(q2, false))
+				} else {
+					a = s.Solve(j.res.Query(q, false))
+				}
+				j.or.Answers[j.qi] = a
 			}
 		}()
 	}
@@ -109,6 +118,7 @@ func cmdFn(args []string) {
 	timeout := fs.Int("timeout", 10, "per-query timeout (s)")
 	verbose := fs.Bool("v", false, "print every obligation")
 	nocache := fs.Bool("nocache", false, "do not use the answer cache")
+	showGoal := fs.Bool("goal", false, "print the (abbreviated) failing goal")
 	fs.Parse(args)
 	t0 := time.Now()
 	p, err := vc.Load(*repo, strings.Split(*pkgs, ","), filepath.Join(*verif, "trusted"))
@@ -180,9 +190,26 @@ func cmdFn(args []string) {
 					extra = fmt.Sprintf(" [%s by %s, path %s, %s]", a.Result, a.Solver, or.Obl.Queries[or.FailIdx].Trail, a.File)
 				}
 				fmt.Printf("   %-8s %-50s %3d queries %5dms %s%s\n", or.Verdict, or.Obl.Name, len(or.Answers), or.Ms, or.Solver, extra)
+				if *showGoal && or.FailIdx >= 0 {
+					for i, a := range or.Answers {
+						if a.Result != "unsat" {
+							fmt.Printf("      goal[%d] (%s): %s\n", i, a.Result, abbreviate(or.Obl.Queries[i].Goal))
+						}
+					}
+				}
 			}
 		}
 	}
 	fmt.Printf("total %.1fs, solver stats %v\n", time.Since(t0).Seconds(), s.Stats)
 }
 
+
+func abbreviate(g string) string {
+	for _, p := range []string{"github.com/glebziz/fs_db/internal/model/core.", "github.com/glebziz/fs_db/internal/model.", "github.com/glebziz/fs_db/internal/usecase/core.", "github.com/glebziz/fs_db/internal/"} {
+		g = strings.ReplaceAll(g, p, "")
+	}
+	if len(g) > 700 {
+		g = g[:700] + " ..."
+	}
+	return g
+}
